@@ -11,6 +11,7 @@ import FqModel.Total
                  (exact class, and value for bitops / radix / intdiv / index / slice) — DIVERGE.
   `cast <int|float|big|bool|string|indent> <V>` TAB `ok <V>` | `fail` | `panic`     gojqx.CastFn
   `opts <V>` TAB `ok depth=… …` | `err` | `panic`                                  OptionsFromValue
+  `optsfmt <V>` TAB `ok <size prefix|->` | `err` | `panic`       the bits format closure it returns, run
 
   V is the token grammar of harness/cmd/c13/pool.go.
 -/
@@ -535,11 +536,35 @@ def optsVerdict (tok obs : String) : String :=
       if !safe then s!"PROPFAIL options-not-clamped {obs}"
       else verdict model obs
 
+/-- the bits_format member as OptionsFromValue reads it (a string field; anything else leaves "") -/
+def bitsFormatOf (v : JV) : String :=
+  match normScalar v with
+  | .obj kv =>
+    match (lookup kv "bits_format").map normScalar with
+    | some (.str bs) => String.ofList (bs.map Char.ofNat)
+    | _ => ""
+  | _ => ""
+
+/-- `optsfmt V`: OptionsFromValue then its bits format closure on 1000 zero bytes -/
+def optsfmtVerdict (tok obs : String) : String :=
+  match parseTok tok with
+  | none => "BADOP token"
+  | some v =>
+    if obs == "panic" then "PROPFAIL bits-format-renderer-panics (an option it uses was not clamped)" else
+    let model : String :=
+      match (optionsFromValueFmt (bitsFormatOf v) v).bind (fun x => x.fn.render 8000) with
+      | .ok s => "ok " ++ s
+      | .err _ => "err"
+      | .panic _ => "panic"
+      | .resource _ => "resource"
+    verdict model obs
+
 def stepC13 (op obs : String) : String :=
   match words op with
   | "call" :: fn :: toks => if toks.isEmpty then "BADOP call" else callVerdict fn toks obs
   | ["cast", kind, tok] => castVerdict kind tok obs
   | ["opts", tok] => optsVerdict tok obs
+  | ["optsfmt", tok] => optsfmtVerdict tok obs
   | _ => "BADOP op"
 
 def main : IO Unit := run stepC13
